@@ -49,7 +49,7 @@ func propC10(a *Analysis, r *Registry) {
 				if !sorted {
 					sp = strings.Replace(sp, "ite(len(D.Xs)==0, nan()", "ite(len(s.Xs)==0, nan()", 1)
 				}
-				b.Eq(rB, name+"/R8/"+regime, b.pos(fn), fc.Sub(fc.RetVal(0)), env, sp)
+				b.EqUnder(rB, name+"/R8/"+regime, b.pos(fn), fc, fc.RetVal(0), env, sp)
 			})
 		}
 		// interpolation indices within bounds
@@ -143,7 +143,7 @@ func propC10(a *Analysis, r *Registry) {
 					env.Let("D", "s")
 				}
 				fc := X.Under(fn, X.AssumeEq(env.MustParse("s.Sorted"), sv))
-				b.Eq(rB, name+"/"+regime, b.pos(fn), fc.Sub(fc.RetVal(0)), env, "D.Quantile(0.75)-D.Quantile(0.25)")
+				b.EqUnder(rB, name+"/"+regime, b.pos(fn), fc, fc.RetVal(0), env, "D.Quantile(0.75)-D.Quantile(0.25)")
 			})
 		}
 	}
